@@ -456,7 +456,8 @@ class Region(object):
             array of (ra,dec) coordinates.
         """
         try:
-            sky = np.array(list(zip(ra, dec)))
+            # reshape so that empty inputs give an array of shape (0, 2)
+            sky = np.array(list(zip(ra, dec))).reshape(-1, 2)
         except TypeError:
             sky = np.array([(ra, dec)])
         return sky
